@@ -164,7 +164,90 @@ def run_generated(prop, seed, run_idx, tier, known=None):
     record = {'engine': 'B', 'property': prop, 'seed': seed, 'run': run_idx, 'tier': tier,
               'profile': {k: profile[k] for k in ('magnitude', 'round_numbers', 'plate_size', 'cache_policy', 'n_steps')},
               'subs': subs, 'prelude': prelude, 'events': calls}
+    if run.baked is not None and run.eager_ok and rng.random() < profile.get('p_chain', 0.15):
+        record['chain'] = second_recipe(rng, run, g, profile, known)
     return record, run
+
+
+def carry_over(run, known, profile):
+    """A second recipe in the same process whose declared objects are what the first one baked (the usual way to work:
+    one recipe makes the stocks, the next one the plate).  Anything a recipe leaves behind outside itself - class-level
+    state, memo tables keyed by names - shows up here."""
+    run2 = RecipeRun(run.rep, run.W.sub_specs, known, profile)
+    run2.idx = run.idx
+    run2.bench.idx = run.bench.idx
+    carried = []
+    for name in sorted(run.baked):
+        o = run.baked[name]
+        if getattr(o, 'name', None) != name:
+            continue                   # renamed by a dilute step: the user knows it under the new name only
+        try:
+            run2.W.add(name, o)
+        except RuntimeError:
+            continue
+        carried.append(name)
+    return run2, carried
+
+
+def fold(run, run2):
+    run.violations.extend(run2.violations)
+    run.stats.update(run2.stats)
+    run.stats['probe:second_recipe_on_baked_results'] += 1
+    run.sig.update(run2.sig)
+    run.log.extend(run2.log)
+    run.n_ok_state += run2.n_ok_state
+    for k, v in run2.max_ratio.items():
+        run.max_ratio[k] = max(run.max_ratio.get(k, 0.0), v)
+
+
+def second_recipe(rng, run, g, profile, known):
+    run2, carried = carry_over(run, known, profile)
+    g2 = GenB(rng, run2, profile)
+    g2.n_cont, g2.n_plate, g2.n_sol = g.n_cont + 1, g.n_plate + 1, g.n_sol + 1
+    g2.used_names = set(g.used_names) | set(carried)
+    prelude = []
+    g2.use_bench(True)
+    if rng.random() < 0.5:
+        ev = g2.ev_new_container(boundary='roomy')
+        prelude.append(ev)
+        run2.bench.step(ev)
+    g2.use_bench(False)
+    calls = []
+
+    def emit(c):
+        calls.append(c)
+        return run2.do_call(c)
+    objs = list(run2.W.names())
+    rng.shuffle(objs)
+    emit({'c': 'uses', 'objs': objs})
+    tries = 0
+    n = rng.randint(1, 6)
+    while len(run2.steps) < n and run2.eager_ok and tries < n * 6:
+        tries += 1
+        if run2.lc.open_stage is None and rng.random() < profile['p_stage']:
+            emit({'c': 'start_stage', 'name': g2.new_stage_name()})
+        c = g2.gen_step()
+        if c is None or run2.try_eager(c)[0] != 'ok':
+            continue
+        emit(c)
+        if run2.lc.open_stage is not None and rng.random() < 0.5:
+            emit({'c': 'end_stage', 'name': run2.lc.open_stage})
+    if run2.eager_ok:
+        for name in list(run2.lc.unused()):
+            for _ in range(8):
+                c = g2.step_using(name)
+                if c is None:
+                    break
+                if run2.try_eager(c)[0] == 'ok':
+                    emit(c)
+                    break
+    emit({'c': 'bake'})
+    if run2.baked is not None:
+        from . import tracking
+        for q in tracking.gen_queries(run2, rng, 5):
+            emit(q)
+    fold(run, run2)
+    return {'prelude': prelude, 'events': calls}
 
 
 def run_replay(record, known=None):
@@ -175,4 +258,12 @@ def run_replay(record, known=None):
         run.bench.step(ev)
     for c in record['events']:
         run.do_call(c)
+    ch = record.get('chain')
+    if ch and run.baked is not None:
+        run2, _ = carry_over(run, known, record.get('profile', {}))
+        for ev in ch.get('prelude', []):
+            run2.bench.step(ev)
+        for c in ch['events']:
+            run2.do_call(c)
+        fold(run, run2)
     return run
